@@ -34,11 +34,14 @@ fn increment(r: &mut Rng, case: &Case) -> Vec<f32> {
         .collect()
 }
 
-pub fn check_case(ctx: &Ctx, case: &Case, t: &mut Tally) {
+pub fn check_case(ctx: &Ctx, case: &Case, inc_override: Option<Vec<f32>>, t: &mut Tally) {
     let Some((comps, fac)) = prepare(PROP, case, t) else { return };
     let Some(e1) = eval(PROP, case, &comps, &fac, case.k, case.area, case.lm, t) else { return };
     let mut r = Rng::new(case.sub_seed);
-    let inc = increment(&mut r, case);
+    let inc = match inc_override {
+        Some(v) if v.len() == case.spec.n => v,
+        _ => increment(&mut r, case),
+    };
     if inc.iter().all(|x| *x == 0.0) {
         t.count("zero_increment_skipped");
         return;
@@ -167,7 +170,7 @@ pub fn run(ctx: &Ctx) -> Report {
         if r.chance(1, 2) {
             case.k = 0.0;
         }
-        check_case(ctx, &case, t);
+        check_case(ctx, &case, None, t);
     });
     let quotas = vec![
         ("monotonicity_checks".to_string(), tally.get("monotonicity_checks"), 20_000),
@@ -190,6 +193,7 @@ pub fn run(ctx: &Ctx) -> Report {
 pub fn replay(ctx: &Ctx, _monitor: &str, w: &Value) -> Option<Report> {
     let case: Case = serde_json::from_value(w["case"].clone()).ok()?;
     let mut t = Tally::default();
-    check_case(ctx, &case, &mut t);
+    let inc: Option<Vec<f32>> = serde_json::from_value(w["increment"].clone()).ok();
+    check_case(ctx, &case, inc, &mut t);
     Some(Report { tally: t, rule: "replay".into(), assumptions: vec![], quotas: vec![] })
 }
